@@ -397,6 +397,9 @@ func entryEq(a, b state.VerifC12Entry) bool {
 	if (a.PrevBig == nil) != (b.PrevBig == nil) || (a.PrevBig != nil && !bigEq(a.PrevBig, b.PrevBig)) {
 		return false
 	}
+	if (a.PrevSize == nil) != (b.PrevSize == nil) || (a.PrevSize != nil && !bigEq(a.PrevSize, b.PrevSize)) {
+		return false
+	}
 	return true
 }
 
